@@ -795,7 +795,7 @@ pub fn execute(plan: &C12Plan) -> Outcome<C12Plan> {
         }
     };
     for p in &sim.panics {
-        if p.file.contains("/verif/") {
+        if p.file.contains("/verif/") || p.env_limit() {
             out.harness_error = Some(format!("driver panic in task {} at {}:{}: {}", p.task, p.file, p.line, p.msg));
         } else {
             set(Violation::new("c12.6-panic", p.short_loc(), format!("task {} panicked at {}:{}: {}", p.task, p.file, p.line, p.msg)));
